@@ -119,6 +119,11 @@ func localsText(rs []LRule) string {
 				fmt.Fprintf(&sb, "  rd(e, %d, 0)\n  if notb() {\n    zz%d = 1\n  }\n", n, n)
 			case "WI":
 				fmt.Fprintf(&sb, "  inj.%s = wr(e, %d)\n", op.Name, n)
+			case "WP":
+				// a plain name: a local of the execution, or the caller's cell in a call that injects it
+				fmt.Fprintf(&sb, "  %s = wr(e, %d)\n", op.Name, n)
+			case "RP":
+				fmt.Fprintf(&sb, "  rdp(e, %d, %s)\n", n, op.Name)
 			case "RI":
 				fmt.Fprintf(&sb, "  rd(e, %d, inj.%s)\n", n, op.Name)
 			}
@@ -177,6 +182,18 @@ func localsAPI() map[string]interface{} {
 		},
 		"rd": func(e int64, i int64, v int64) {
 			theObs.Emit(obs.Event{"ev": "eop", "e": e, "i": i, "val": v})
+		},
+		"rdp": func(e int64, i int64, v interface{}) {
+			var x int64
+			switch t := v.(type) {
+			case *int64:
+				x = *t
+			case int64:
+				x = t
+			default:
+				x = -1
+			}
+			theObs.Emit(obs.Event{"ev": "eop", "e": e, "i": i, "val": x})
 		},
 		"wrhold": func(e int64, i int64) int64 {
 			v := e*100 + i
@@ -278,6 +295,7 @@ func runLocals(s *Session, quiet time.Duration, seed int64, tmo time.Duration) (
 		q := int64(ci + 1)
 		var err error
 		var pv interface{}
+		var gp *int64
 		func() {
 			defer func() {
 				if r := recover(); r != nil {
@@ -285,8 +303,15 @@ func runLocals(s *Session, quiet time.Duration, seed int64, tmo time.Duration) (
 				}
 			}()
 			st := &engine.Stag{}
+			if c.Pin {
+				gp = new(int64)
+				o.Emit(obs.Event{"ev": "lpin", "q": q})
+			}
 			if pool != nil {
 				data := map[string]interface{}{"q": q, "inj": inj, "stag": st}
+				if c.Pin {
+					data["gp"] = gp
+				}
 				for k, v := range frMaps(s.Rules, q) {
 					data[k] = v
 				}
@@ -294,13 +319,21 @@ func runLocals(s *Session, quiet time.Duration, seed int64, tmo time.Duration) (
 			} else {
 				rb.Dc.Add("q", q)
 				rb.Dc.Add("stag", st)
+				if c.Pin {
+					rb.Dc.Add("gp", gp)
+				} else {
+					rb.Dc.Del("gp")
+				}
 				for k, v := range frMaps(s.Rules, q) {
 					rb.Dc.Add(k, v)
 				}
 				err = dispatch.EngineCall(g, rb, c, st)
 			}
 		}()
-		ev := obs.Event{"ev": "lreturn", "q": q, "err": err != nil, "panic": pv != nil}
+		ev := obs.Event{"ev": "lreturn", "q": q, "err": err != nil, "panic": pv != nil, "gpv": int64(0)}
+		if gp != nil {
+			ev["gpv"] = *gp // what the caller finds in the plain name it injected
+		}
 		if err != nil {
 			m := err.Error()
 			if len(m) > 160 {
